@@ -334,17 +334,14 @@ def explore(raw, ops, depth, tag, case0, max_states=400000):
         r = h.obj
         if op in base and not obs_equal(obs[1], base[op]):
             res.append((f"{tag}/value/{opn}", f"after {list(hist)} the operation {op} returned a value different from a fresh result's"))
-        # whatever was stored in the object before the operation (raw data, cached attributes) is unchanged afterwards:
-        # same bytes always; same object for read-only operations
+        # whatever was stored in the object before the operation (raw data, cached attributes) is unchanged afterwards
+        # (same content; whether it is the same array object is the implementation's business)
         now = api.flatten_state(r)
         for p_, (oid, v) in pre["state"].items():
             if p_ not in now:
                 continue
             if not rm.identical(now[p_], v):
                 res.append((f"{tag}/stored-value-changed/{opn}", f"after {list(hist)}+{op}: the stored value {p_} changed"))
-                break
-            if op[0] in ("get", "meas", "df") and isinstance(v, np.ndarray) and id(now[p_]) != oid:
-                res.append((f"{tag}/stored-value-replaced/{opn}", f"after {list(hist)}+{op}: the stored array {p_} was replaced by another object"))
                 break
         # every value read afterwards equals the fresh value
         for a in names:
